@@ -420,7 +420,32 @@ def check_dwann(case):
         Rc_ = L.T @ np.array(symop.rotation, dtype=float) @ Linv.T
         if maxdiff(Rc_ @ Rc_.T, np.eye(3)) > 1e-10:
             raise Inconclusive("lattice has an operation of the detected group only within spglib's tolerance (tie)")
-    rotator = OrbitalRotator()
+    seen_rot = []
+
+    class RecordingRotator(OrbitalRotator):
+        """the shared rotator object of the calculation; remembers every effective rotation it was asked for"""
+
+        def __call__(self, orb_symbol, rot_cart=None, irot=None, basis1=None, basis2=None):
+            if rot_cart is not None:
+                seen_rot.append(np.array(rot_cart if basis1 is None else basis2 @ rot_cart @ basis1.T, dtype=float))
+            return super().__call__(orb_symbol, rot_cart=rot_cart, irot=irot, basis1=basis1, basis2=basis2)
+
+    def cache_tie():
+        """two DIFFERENT effective rotations closer than the rotator's matching tolerance domain (documented 1e-4; guard
+        1e-2 as in sub 'shells') share one cached matrix: a tie of the generator, not a violation"""
+        M = np.array(seen_rot).reshape(len(seen_rot), 9) if seen_rot else np.zeros((0, 9))
+        for i in range(len(M)):
+            d = np.abs(M[:i] - M[i]).max(axis=1) if i else np.zeros(0)
+            if np.any((d > 1e-12) & (d < CACHE_SEP)):
+                return True
+        return False
+
+    def fail(bucket, detail):
+        if cache_tie():
+            raise Inconclusive("effective rotations of the case inside the rotator cache tolerance domain (tie)")
+        raise Violation(bucket, detail)
+
+    rotator = RecordingRotator()
     labels = [f"lat={case['lat']['kind']}", "spinor" if sg.spinor else "scalar",
               "nsym<=4" if nsym <= 4 else ("nsym<=16" if nsym <= 16 else "nsym>16"),
               "has-TR-ops" if any(s.time_reversal for s in sg.symmetries) else None]
@@ -509,16 +534,16 @@ def check_dwann(case):
                         S = np.einsum("ab,asbt->st", Down, b4) / nscal
                         e = maxdiff(blk, np.kron(Down, S))
                         if e <= TOL and maxdiff(S.conj().T @ S, np.eye(2)) > TOL:
-                            raise Violation("spinor-block", f"{o}: op {isym}: spin factor not unitary")
+                            fail("spinor-block", f"{o}: op {isym}: spin factor not unitary")
                     else:
                         e = maxdiff(blk, Down)
                     if e > TOL:
-                        raise Violation("dwann-block", f"{o}: op {isym} (det {np.linalg.det(Rc):+.0f}), site {ip}->{jp}: block "
+                        fail("dwann-block", f"{o}: op {isym} (det {np.linalg.det(Rc):+.0f}), site {ip}->{jp}: block "
                                         f"differs from exp(2 pi i gk.T) x own orbital matrix by {e:.2e}")
                 if sym_inv:
                     e = maxdiff(M.conj().T @ M, np.eye(len(M)))
                     if e > TOL:
-                        raise Violation("dwann-unitary", f"{o}: op {isym}: |D^+ D - 1| = {e:.2e}")
+                        fail("dwann-unitary", f"{o}: op {isym}: |D^+ D - 1| = {e:.2e}")
                 all_inv = all_inv and sym_inv
             for isym, M, M0 in held:
                 if not np.array_equal(M, M0):
